@@ -1058,9 +1058,9 @@ struct Fill { int slot; int alpha; int pat; };
 struct Desc { int arch = 0 /* 0 x64 native, 1 x86-32 simulated, 2 AArch64 simulated */; int shape = 0, K = 0, n = 1, am = 6, vm = 0; std::vector<Fill> fills; int x = 0 /* shape specific extra parameter */; };
 static const char* const kArchName[] = {"x64", "x86", "a64"};
 
-enum { SH_STRAIGHT, SH_DIAMOND, SH_LOOP, SH_NESTED, SH_LOOPCOND, SH_IRREDUCIBLE, SH_JT3, SH_JT2, SH_CALLMID, SH_CALLLOOP, SH_TWOCALLS, SH_LOOPLOCAL_E, SH_LOOPLOCAL_L, SH_MARSHAL, SH_MANYARGS, SH_SWAPLOOP, SH_TWOJT, SH_SWAPLOOP2, SH__COUNT };
-static const char* const kShapeName[] = {"straight", "diamond", "loop", "nested-loop", "loop-cond", "irreducible", "jumptable3", "jumptable2", "call-mid", "call-loop", "two-calls", "loop-local-early", "loop-local-late", "call-args", "many-args", "swap-loop", "two-jumptables", "swap-loop-reload"};
-static const int kShapeSlots[] = {2, 4, 4, 4, 4, 4, 4, 3, 2, 2, 3, 4, 4, 2, 2, 2, 4, 2};
+enum { SH_STRAIGHT, SH_DIAMOND, SH_LOOP, SH_NESTED, SH_LOOPCOND, SH_IRREDUCIBLE, SH_JT3, SH_JT2, SH_CALLMID, SH_CALLLOOP, SH_TWOCALLS, SH_LOOPLOCAL_E, SH_LOOPLOCAL_L, SH_MARSHAL, SH_MANYARGS, SH_SWAPLOOP, SH_TWOJT, SH_SWAPLOOP2, SH_SELFLOOP, SH__COUNT };
+static const char* const kShapeName[] = {"straight", "diamond", "loop", "nested-loop", "loop-cond", "irreducible", "jumptable3", "jumptable2", "call-mid", "call-loop", "two-calls", "loop-local-early", "loop-local-late", "call-args", "many-args", "swap-loop", "two-jumptables", "swap-loop-reload", "self-loop-call"};
+static const int kShapeSlots[] = {2, 4, 4, 4, 4, 4, 4, 3, 2, 2, 3, 4, 4, 2, 2, 2, 4, 2, 3};
 
 enum { NEED_RDX = 1, NEED_AB_DISTINCT = 2, NEED_XMM_ONLY = 4, NEED_VEX = 8, NEED_NOT_Z = 16, NEED_BC_DISTINCT = 32, NEED_64 = 64, NEED_NATIVE = 128, NEED_3REGS = 256 };
 
@@ -1559,6 +1559,25 @@ static bool build_prog(const Desc& d, PB& b) {
       b.bind(lx);
       break;
     }
+    case SH_SELFLOOP: {
+      // a block that branches to itself and contains a call: the middle value is spilled by a call before the loop and reloaded by a
+      // read-only use (clean when the loop is entered), spilled again by the call in the body (nothing to store), then reloaded and
+      // modified (dirty at the back edge). 3 iterations. x bit0: the back edge is a jmp and the exit is in the middle (two blocks).
+      int lh = b.label(), lx = b.label(); int ctr = b.tmp("n"), t = b.tmp("t");
+      b.slot(0);
+      call(b, 2, L);
+      b.I(O_LEA, t, S, F, 0, 1);
+      b.I(O_MOVI, ctr, -1, -1, 3);
+      b.bind(lh);
+      call(b, 2, L);
+      b.slot(1);
+      b.I(O_ADDI, S, -1, -1, 1);
+      b.slot(2);
+      if (d.x & 1) { b.I(O_ADDI, ctr, -1, -1, -1); b.br(O_JZ, ctr, lx); b.I(O_ADDI, t, -1, -1, 5); b.jmp(lh); b.bind(lx); }
+      else b.br(O_DECJNZ, ctr, lh);
+      b.extra.push_back(t);
+      break;
+    }
     case SH_TWOCALLS: {
       int r0 = b.tmp("r"), r1 = b.tmp("r"), t = b.tmp("t");
       b.slot(0);
@@ -1830,7 +1849,7 @@ int main(int argc, char** argv) {
   }
 
   g_dry = c.opt("dry") == "1";
-  std::vector<int> all_shapes; for (int i = 0; i < SH__COUNT; i++) if (i != SH_MARSHAL && i != SH_MANYARGS && i != SH_SWAPLOOP && i != SH_TWOJT && i != SH_SWAPLOOP2) all_shapes.push_back(i);
+  std::vector<int> all_shapes; for (int i = 0; i < SH__COUNT; i++) if (i != SH_MARSHAL && i != SH_MANYARGS && i != SH_SWAPLOOP && i != SH_TWOJT && i != SH_SWAPLOOP2 && i != SH_SELFLOOP) all_shapes.push_back(i);
   std::vector<Config> cfg1, cfg2;
   std::string bound;
   auto add_k = [&](std::vector<Config>& v, int K, std::initializer_list<int> ams) {
@@ -1903,6 +1922,13 @@ int main(int argc, char** argv) {
     std::vector<Config> sw2;
     for (int vm : {0, 5, 6}) for (int K : {0, 4, 3}) for (int n : {3, 4, 5}) { if (!c.thorough() && (vm != 0 || n == 4)) continue; sw2.push_back(Config{K, n, 6, vm}); }
     if (!g_stop) enumerate(sw2, 1, {SH_SWAPLOOP2});
+    // single-block loop (a block that branches to itself) with a call before the loop and a call in the body
+    std::vector<Config> sl;
+    for (int x : {0, 1}) for (int vm : {0, 6, 5}) for (int K : {4, 3, 0}) for (int n : {3, 4, 6}) {
+      if (!c.thorough() && (x || K == 0 || n != 3 || vm == 5)) continue;
+      Config cf{K, n, 6, vm}; cf.x = x; if (!c.thorough()) cf.pats = 0x01; sl.push_back(cf);
+    }
+    if (!g_stop) enumerate(sl, 1, {SH_SELFLOOP});
     // a value that is live only around a back edge and whose liveness bit is in the upper half of a bit word (33..64 multi-block registers)
     std::vector<Config> ll;
     for (int n : {40, 56}) { Config cf{0, n, 6, 0}; if (!c.thorough()) cf.pats = 0x01; ll.push_back(cf); }
